@@ -325,6 +325,87 @@ def exhaustive(depth, sources):
             yield {'src': src, 'ops': list(ops)}
 
 
+def run_sched(spec, res):
+    """The counters that the copies used by thread-prefetch workers share,
+    under the controlled scheduler (all of core.py traced, so another worker may
+    run between any two lines of the wrapper): after a full iteration the report
+    must equal what the instrumented function saw, failed fetches included."""
+    import random
+    from .. import conc, detsched as D, concshards as cs
+    e = conc.env()
+    ld, core, pu = e['ld'], e['core'], e['pu']
+    traced = {pu.__file__: None, core.__file__: None}
+    rng = rng_for(spec['seed'], PROPERTY, spec['name'])
+    fe = ld.core.FilterException
+
+    def one(n, b, w, failing, chooser, label):
+        out = {}
+        case = {'n': n, 'b': b, 'w': w, 'failing': sorted(failing), 'schedule': label,
+                'profiled_pool_prefetch': True}
+
+        def body(S):
+            seen = {'calls': 0, 'failed': 0}
+
+            def fn(x):
+                S.preempt()
+                seen['calls'] += 1
+                S.preempt()
+                if x in failing:
+                    seen['failed'] += 1
+                    S.preempt()
+                    raise fe(x)
+                return ('f', x)
+            P = ld.new(list(range(n))).map(fn).prefetch(w, b, 't',
+                                                        catch_filter_exception=True)
+            W = ld.core.ProfilingDataset(P)
+            out['got'] = list(W)
+            out['report'] = report(W)
+            out['seen'] = dict(seen)
+        try:
+            D.run(chooser, traced, body, step_limit=400000)
+        except D.Deadlock as dl:
+            res.violation('profiling-changes-observation', {**case, 'aspect': 'deadlock'},
+                          {'blocked': dl.args[0]}, sig={'aspect': 'deadlock'})
+            return
+        S = D.S
+        res.count('scheduled_executions')
+        res.count('scheduled_choice_points', S.nchoices)
+        res.case(('sched', n, b, w, tuple(sorted(failing)), tuple(c[1] for c in S.choices[:300])),
+                 S.max_enabled >= 2)
+        want = [('f', i) for i in range(n) if i not in failing]
+        if out['got'] != want:
+            res.violation('profiling-changes-observation', {**case, 'aspect': 'iter1'},
+                          {'wrapped': out['got'], 'plain': want},
+                          sig={'aspect': 'iter1', 'harness': 'scheduler'})
+            return
+        rep = out['report']
+        # lines: source list, (deserialising map), user map, prefetch
+        user_map = rep[-2]
+        src = rep[0]
+        top = rep[-1]
+        exp = (n, len(failing))
+        res.count('stage_counts_compared', 3)
+        if (user_map[0], user_map[1]) != exp or src[0] != n or \
+                (top[0], top[1]) != (n - len(failing), 0):
+            res.violation('hit-count-wrong', {**case, 'access': 'full'},
+                          {'report': rep, 'function_saw': out['seen'],
+                           'expected_user_map (hits, failed)': exp},
+                          sig={'stage': 'map', 'access': 'thread-prefetch',
+                               'harness': 'scheduler'})
+    for n, b, w, failing in ((3, 2, 2, {0, 1}), (4, 3, 2, {1, 2}), (4, 3, 3, {0, 1, 3}),
+                             (3, 2, 2, set()), (5, 2, 2, {0, 2, 4})):
+        for i in range(spec['sched_runs']):
+            seed = rng.randrange(1 << 30)
+            name = cs.CHOOSERS[i % len(cs.CHOOSERS)]
+            one(n, b, w, failing, cs.chooser_for(name, random.Random(seed)), (name, seed))
+    dfs = D.DFS(2, max_runs=spec['sched_dfs_cap'])
+
+    def once(ch):
+        one(3, 2, 2, {0, 1}, ch, 'dfs')
+    for _ in dfs.explore(once):
+        pass
+
+
 def shards(tier, seed):
     lim = LIMITS[tier]
     J = 14
@@ -333,10 +414,15 @@ def shards(tier, seed):
     nr = 2 if tier == 'quick' else 16
     for j in range(nr):
         out.append({'name': f'rand{j}', 'what': 'rand', 'count': lim['nrand'] // nr})
+    out.append({'name': 'sched', 'what': 'sched',
+                'sched_runs': 40 if tier == 'quick' else 1500,
+                'sched_dfs_cap': 300 if tier == 'quick' else 30000})
     return out
 
 
 def run_shard(spec, res):
+    if spec['what'] == 'sched':
+        return run_sched(spec, res)
     ld = import_lazy_dataset()
     if spec['what'] == 'exh':
         cnt = 0
